@@ -142,4 +142,59 @@ example : uidsOK exS = true := by decide
 -- the opening quote is pulled next to the closing one
 #guard (punctuationSymetrify none exS).kids.map leafNums = [[2, 3, 1], [4]]
 
+/-! ## nothing else moves (uid based) -/
+
+theorem verylow_parents (t : Tree) (hu : uidsOK t = true) (h : WF t = true) :
+    parentsKept t (punctuationVerylow t) (fun s => s.isLeaf && isPunctWord s) = true :=
+  parentsKept_of_inv t _ freePunct hu (verylow_PK t h)
+
+theorem root_parents (t : Tree) (hu : uidsOK t = true) (h : WF t = true) :
+    parentsKept t (punctuationRoot t) (fun s => s.isLeaf && isPunctWord s) = true :=
+  parentsKept_of_inv t _ freePunct hu (root_PK t h)
+
+theorem sym_parents (relc : Option Str) (t : Tree) (hu : uidsOK t = true) (h : WF t = true) :
+    parentsKept t (punctuationSymetrify relc t) (fun s => s.isLeaf && isPairPunctWord s) = true :=
+  parentsKept_of_inv t _ freePair hu (sym_PK relc t h)
+
+
+theorem sym_ok (relc : Option Str) (t : Tree) (hu : uidsOK t = true) (h : WF t = true) :
+    symetrifyOK relc t (punctuationSymetrify relc t) = true := by
+  obtain ⟨s, hs, hsi⟩ := sym_SI relc t h hu
+  rw [← hs]
+  exact sym_ok_of_SI relc t h s hsi
+
+-- a relative-clause example: `(S (NP (A 1) (" 2)) (SBAR (, 3) (W 4) (B 5)))`, token 4 tagged `PRELS`;
+-- the quote before the comma that precedes the clause is pulled into the clause
+def exR : Tree :=
+  node { label := "S".toList, uid := some 0 } [
+    node { label := "NP".toList, uid := some 1 } [
+      leaf 1 { label := "A".toList, word := some "a".toList, uid := some 2 },
+      leaf 2 { label := "Q".toList, word := some "\"".toList, uid := some 3 }],
+    node { label := "SBAR".toList, uid := some 4 } [
+      leaf 3 { label := ",".toList, word := some ",".toList, uid := some 5 },
+      leaf 4 { label := "PRELS".toList, word := some "w".toList, uid := some 6 },
+      leaf 5 { label := "B".toList, word := some "b".toList, uid := some 7 }]]
+
+example : WF exR = true ∧ uidsOK exR = true := by decide
+#guard (punctuationSymetrify (some "PRELS".toList) exR).kids.map leafNums = [[1], [3, 4, 5, 2]]
+#guard symetrifyOK (some "PRELS".toList) exR (punctuationSymetrify (some "PRELS".toList) exR)
+#guard (movedTokens exR (punctuationSymetrify (some "PRELS".toList) exR)).map num = [2]
+#guard (movedTokens exS (punctuationSymetrify none exS)).map num = [1]
+#guard (movedTokens exT (punctuationVerylow exT)).map num = [6]
+#guard (movedTokens exT (punctuationRoot exT)).map num = [2, 4]
+
+
+/-! ## the theorems applied to the examples -/
+
+example : verylowPost (punctuationVerylow exT) = true := verylow_post exT (by decide)
+example : WF (punctuationVerylow exT) = true := verylow_WF exT (by decide)
+example : rootPost (punctuationRoot exT) = true := root_post exT (by decide)
+example : sentence (punctuationRoot exT) = sentence exT := root_sentence exT (by decide)
+example : parentsKept exT (punctuationRoot exT) (fun s => s.isLeaf && isPunctWord s) = true :=
+  root_parents exT (by decide) (by decide)
+example : WF (punctuationSymetrify none exS) = true := sym_WF none exS (by decide)
+example : symetrifyOK (some "PRELS".toList) exR (punctuationSymetrify (some "PRELS".toList) exR) = true :=
+  sym_ok _ exR (by decide) (by decide)
+
+
 end TT.Props.C13
